@@ -318,10 +318,12 @@ def check(case):
             # the grafting norm ratio is then not a floating-point-tolerance question
             range_skipped += 1
           else:
-            worst = max(worst, _cmp(u, uref, 5e-5, "update", f"{tag} update (lr {lr})", bound=bounds["update"]))
+            worst = max(worst, _cmp(u, uref, 5e-5, "update", f"{tag} update (lr {lr})", bound=bounds["update"],
+                                    floor=bounds["update_scale"]))
             worst = max(worst, _cmp(nw["momentum"], fields["momentum"], 5e-5, "momentum", f"{tag} momentum",
-                                    bound=bounds["momentum"]))
-          worst = max(worst, _cmp(nw["diag_momentum"], fields["diag_momentum"], 5e-5, "graft-momentum", f"{tag} diagonal momentum"))
+                                    bound=bounds["momentum"], floor=bounds["scale"]))
+          worst = max(worst, _cmp(nw["diag_momentum"], fields["diag_momentum"], 5e-5, "graft-momentum", f"{tag} diagonal momentum",
+                                  floor=bounds["scale"]))
           if fields["diag"] is not None:
             worst = max(worst, _cmp(nw["diag"], fields["diag"], 5e-5, "graft-accumulator", f"{tag} diagonal statistics"))
           if (c >= o["start_preconditioning_step"] and not lay.skipped and used and
@@ -333,9 +335,11 @@ def check(case):
             es["stats"] = ref.new_statistics(lay, es["stats"], g, o, c)
             if prefresh and not lay.skipped:
               newp = []
-              for S in es["stats"]:
+              for kk, S in enumerate(es["stats"]):
                 lm = float(np.linalg.eigvalsh((S + S.T) / 2)[-1])
                 d = eps * max(lm, 1e-6 if o["eigh"] else 1e-25) if o["relative_matrix_epsilon"] else eps
+                if not o["eigh"] and max_size > 1 and kk < len(nw["retries"]):
+                  d = d * 10.0 ** max(float(nw["retries"][kk]) - 1.0, 0.0)   # the routine's documented ridge escalation
                 root = ref.inverse_root(S, lay.exponent, d, clamp=bool(o["eigh"]))
                 newp.append(root if root is not None else np.eye(S.shape[0]))
               es["pres"] = newp
